@@ -27,6 +27,9 @@ def register(reg):
         sizeexpr = "len(array) * (8 // nbits)" if fn == "unpack" else "len(array) // (8 // nbits)"
         bad = (f"dtype_bad or nbits not in (1, 2, 4) or order_bad or "
                f"(not is_none({buf}) and len({buf}) != {sizeexpr})")
+        if fn == "pack":
+            # a sample count that is not a whole number of bytes cannot be packed without losing samples: refused
+            bad += " or (nbits in (1, 2, 4) and len(array) % (8 // nbits) != 0)"
         c = Contract(B + fn, props=CHAIN, bv_u1=True,
                      params={"array": Arr("bv8", "u1"), "nbits": Int(), buf: Arr("bv8", "u1"), "bitorder": Str()},
                      cases={"array": [U8("bv8", "u1"), F4("real", "f4")],
@@ -69,7 +72,8 @@ def register(reg):
                  params={"v": Arr("bv8", "u1"), "nbits": Int(), "bitorder": Str(), },
                  cases={"nbits": [1, 2, 4], "bitorder": ["big", "little"]}, ret=Arr("bv8", "u1"),
                  lets={"f": "8 // nbits"},
-                 requires=["len(v) == f * (len(v) // f)"])
+                 # no precondition on the length: a trailing partial byte is refused by pack, never dropped silently
+                 raises=[Raises("ValueError", when="len(v) % f != 0")])
     for nb in (1, 2, 4):
         f = 8 // nb
         c.case_requires[("nbits", str(nb))] = [f"forall(k, 0, len(v), bits(v[k], {nb}, {8 - nb}) == bv(0))"]
